@@ -347,6 +347,7 @@ def plan(tier, seed):
         jobs.append({"prop": PROP, "mode": "random", "i": i, "seed": H(seed, tier, PROP, "random", i)})
     for i in range(npool):
         jobs.append({"prop": PROP, "mode": "pool", "i": i, "seed": H(seed, tier, PROP, "pool", i)})
+    jobs += common.regress_jobs(PROP, 24 if tier == "quick" else 400)
     return jobs
 
 
@@ -420,6 +421,18 @@ def run_job(job, env):
         out.sample({"mode": "sweep", "argv": base["argv"], "files": base["meta"]["files"], "ops": [[o["task"], o["n"], o["kind"], o["path"]] for o in ops if o["task"] != "main"][:40], "single_fault_runs": nfaults, "raise_points": ks})
         return out.done()
 
+    if mode == "regress":
+        d = common.regress_desc(job)
+        d["hashseed_class"] = job.get("class", 0)
+        V, res = judge(d, env)
+        if V is None:
+            out.skipped("reference-run-failed")
+            return out.done()
+        out.account(d, res, V, ("regress", job["file"], common.trace_hash(res)), nontrivial=True)
+        out.stat("regression_replays", 1)
+        if isinstance(V, list) and V:
+            out.violation(d, V)
+        return out.done()
     pool = mode == "pool"
     base = gen_base(seed, pool=pool)
     base["hashseed_class"] = job.get("class", 0)
